@@ -501,12 +501,12 @@ _NOCONST = object()
 
 class AV(object):
     __slots__ = ("kind", "dtype", "origin", "shape", "sym", "alg", "sign", "mono", "const", "expo",
-                 "items", "elem", "obj", "tags", "indef", "dmust", "dmay", "dvals", "ref", "note", "f0", "ext")
+                 "items", "elem", "obj", "tags", "indef", "dmust", "dmay", "dvals", "ref", "note", "f0", "ext", "rel")
 
     def __init__(self, kind=K_TOP, dtype="top", origin=frozenset(), shape=None, sym=None, alg=None,
                  sign=S_ANY, mono=frozenset(), const=_NOCONST, expo=None, items=None, elem=None, obj=None,
                  tags=frozenset(), indef=False, dmust=None, dmay=None, dvals=None, ref=None, note=None,
-                 f0=False, ext=None):
+                 f0=False, ext=None, rel=None):
         self.kind = kind
         self.dtype = dtype
         self.origin = origin
@@ -528,6 +528,7 @@ class AV(object):
         self.ref = ref  # resolution tuple for func/class/module values
         self.note = note
         self.f0 = f0  # element [0] along the last axis is exactly zero
+        self.rel = rel  # (ref sym, +1|-1, 'eq'|'ge'|'le'|None, 'int'|'recip-int'|None): rounding relation to ref**pow
         self.ext = ext  # ('lo'|'hi', key): smallest/largest element of the ascending array `key` (times a positive factor)
 
     def replace(self, **kw):
@@ -705,6 +706,7 @@ def join_av(a, b):
               dmust=(a.dmust & b.dmust) if (a.dmust is not None and b.dmust is not None) else None,
               dmay=(a.dmay | b.dmay) if (a.dmay is not None and b.dmay is not None) else None,
               dvals=dvals, ref=a.ref if a.ref == b.ref else None, ext=a.ext if a.ext == b.ext else None,
+              rel=a.rel if a.rel == b.rel else None,
               note=a.note if a.note == b.note else None)
 
 
